@@ -1,4 +1,5 @@
 """C02 / C03 harnesses: what strict mode emits is valid STIX; what is valid is accepted and preserved."""
+import copy
 import json
 from collections import OrderedDict
 
@@ -692,9 +693,62 @@ def run_corrupt_case(ci, ji):
     out = json.loads(o.serialize())
     try:
         specmodel.validate(out, ver, cat, name, _MODEL)
-    except specmodel.Invalid:
+    except specmodel.Invalid as e:
+        if "extension_type missing" in str(e) and K.open("C02-extension-type-missing"):
+            return True                       # known open finding (class: an unregistered extension-definition entry without extension_type)
         return False
     return True
+
+
+# ---------------------------------------------------------------- f'. entries of unregistered extension-definition extensions
+_ED = "extension-definition--311b2d2d-f010-4473-83ec-1edf84858f4c"
+EXT_ENTRIES = [{"extension_type": "property-extension", "a": 1}, {}, 5, "property-extension", {"a": 1}, {"extension_type": "bogus"}, {"extension_type": None},
+               {"extension_type": "property-extension", "x": None}, {"extension_type": "property-extension", "x": []}, {"extension_type": "property-extension", "x": {"y": {}}},
+               {"extension_type": "new-sdo"}, {"extension_type": "toplevel-property-extension"}, [{"extension_type": "property-extension"}], {"extension_type": ["new-sdo"]},
+               {"extension_type": "property-extension", "x": [1, [None]]}, None, True]
+EXT_HOSTS = [("2.1", "objects", "identity", lambda: {"type": "identity", "spec_version": "2.1", "id": "identity--" + gen.UU, "created": gen.TS, "modified": gen.TS, "name": "n"}),
+             ("2.1", "observables", "file", lambda: {"type": "file", "id": "file--" + gen.UU, "name": "f"}),
+             ("2.1", "observables", "file", lambda: {"type": "file", "id": "file--" + gen.UU, "name": "f", "extensions": {"ntfs-ext": {"sid": "s"}}}),
+             ("2.1", "objects", "marking-definition", lambda: {"type": "marking-definition", "spec_version": "2.1", "id": "marking-definition--" + gen.UU, "created": gen.TS,
+                                                             "definition_type": "statement", "definition": {"statement": "s"}}),
+             ("2.1", "objects", "relationship", lambda: {"type": "relationship", "spec_version": "2.1", "id": "relationship--" + gen.UU, "created": gen.TS, "modified": gen.TS,
+                                                       "relationship_type": "uses", "source_ref": "malware--" + gen.UU, "target_ref": "identity--" + gen.UU})]
+
+
+def ext_entries(ei: int, hi: int, ctor: bool) -> bool:
+    """
+    pre: 0 <= ei < len(EXT_ENTRIES) and 0 <= hi < len(EXT_HOSTS)
+    post: _
+    """
+    ei, hi, ctor = pick(ei, len(EXT_ENTRIES)), pick(hi, len(EXT_HOSTS)), pickb(ctor)
+    with Native():
+        ok = run_ext_entry_case(ei, hi, ctor)
+    V.reached()
+    return ok
+
+
+def run_ext_entry_case(ei, hi, ctor=False):
+    """the library treats an unregistered extension-definition entry as specification content (not custom): what it then emits in strict mode must
+    at least be an extension -- a JSON object naming one of the five extension types, without nulls or empty containers"""
+    ver, cat, name, mk = EXT_HOSTS[hi]
+    doc = mk()
+    doc["extensions"] = dict(doc.get("extensions", {}), **{_ED: copy.deepcopy(EXT_ENTRIES[ei])})
+    try:
+        if ctor:
+            cls = stix2.registry.class_for_type(name, ver, cat)
+            o = cls(**{k: v for k, v in doc.items() if k != "type"}) if cat == "objects" else cls(**doc)
+        else:
+            o = stix2.parse(doc, allow_custom=False, version=ver) if cat == "objects" else stix2.parse_observable(doc, allow_custom=False, version=ver)
+    except (STIXError, ValueError, TypeError):
+        return ei != 0
+    out = json.loads(o.serialize())
+    try:
+        specmodel.validate(out, ver, cat, name, _MODEL)
+    except specmodel.Invalid as e:
+        if "extension_type missing" in str(e) and K.open("C02-extension-type-missing"):
+            return True
+        return False
+    return out["extensions"][_ED] == EXT_ENTRIES[ei]
 
 
 # ---------------------------------------------------------------- c'. presence-only co-constraints, table driven (symbolic presence flags)
